@@ -34,7 +34,7 @@ def descriptors(tier):
     return out
 
 
-def generate(gen, tier):
+def _generate_model_cases(gen, tier):
     rng = gen.rng
     cases = []
     for d in descriptors(tier):
@@ -58,11 +58,30 @@ def generate(gen, tier):
     return cases
 
 
+def generate(gen, tier):
+    cases = _generate_model_cases(gen, tier)
+    # order-free stream: key sets outside the model's key universe (props/exotic.py); oracle only, no model lines
+    n = 120 if tier == 'quick' else 3000
+    for _ in range(n):
+        cases.append({'lines': [], 'o': {'exotic': gen.rng.randrange(10**9)}})
+    return cases
+
+
 def nontrivial(case):
+    if 'exotic' in case['o']:
+        return True
     return True
 
 
 def distribution(cases):
+    n_exotic = sum(1 for c in cases if 'exotic' in c['o'])
+    cases = [c for c in cases if 'exotic' not in c['o']]
+    d0 = _distribution(cases)
+    d0['exotic_key_cases'] = n_exotic
+    return d0
+
+
+def _distribution(cases):
     d = {}
     for c in cases:
         d[c['o']['kind']] = d.get(c['o']['kind'], 0) + 1
@@ -70,6 +89,10 @@ def distribution(cases):
 
 
 def oracle(impl, o):
+    if 'exotic' in o:
+        import optree as _optree
+        from props import exotic
+        return exotic.check_C18(_optree, o['exotic'])
     import collections
     import gc
     import optree
